@@ -311,9 +311,22 @@ def vocabulary_rules(ctx):
             for a in m["arms"]:
                 vs = sir.pat_variants(a["pat"])
                 for x in sir.walk(a["body"]):
-                    if x.get("k") == "call" and sir.call_name(x) == "add_element_event_binding" and len(x["args"]) >= 7 and vs:
-                        flags = tuple(bool(y.get("v")) for y in x["args"][4:7])
-                        event_flags[vs[0]] = flags
+                    if x.get("k") == "call" and sir.call_name(x) == "add_element_event_binding" and vs:
+                        # flags by NAME: positional booleans (named by the callee's parameters) or a struct literal with named fields
+                        callee = [g for g in sir.walk(f.node, into_items=True) if g.get("k") == "fn" and g.get("name") == "add_element_event_binding"]
+                        callee += [g.node for g in tc.fns if g.name == "add_element_event_binding"]
+                        pnames = [(pp.get("pat") or {}).get("name") for pp in callee[0].get("params", [])] if callee else []
+                        named = {}
+                        for pn_, a_ in zip(pnames, x["args"]):
+                            a_ = sir.strip_ref(a_)
+                            if a_.get("k") == "lit" and a_.get("t") == "bool" and pn_:
+                                named[pn_] = bool(a_["v"])
+                            elif a_.get("k") == "struct":
+                                for fl in a_["fields"]:
+                                    if fl["e"].get("k") == "lit" and fl["e"].get("t") == "bool":
+                                        named[fl["name"]] = bool(fl["e"]["v"])
+                        if all(k_ in named for k_ in ("is_catch", "is_mut", "is_capture")):
+                            event_flags[vs[0]] = (named["is_catch"], named["is_mut"], named["is_capture"])
     ev_table = {p: event_flags[k] for p, k in kind_of_prefix.items() if k in event_flags}
     obs.append(ob("C14.prefix/parser-vocabulary", len(prefixes) >= 15 and len(wx_dirs) >= 7 and len(ev_table) == 6, ctx.where(f),
                   "parser recognises prefixes %s, wx directives %s, event prefixes %s" % (sorted(prefixes), sorted(wx_dirs), ev_table)))
